@@ -581,15 +581,16 @@ def st_case_select(draw, js=False, join_p=3, order=False, distinct=False, top=Fa
     if dup_heavy:
         pool = pool[:6]
     hdr = draw(st.booleans())
-    if force_join:
-        A, aw = st_join_table(draw, max_rows, max_width, pool, hdr)
+    want_join = bool(force_join or (join_p and draw(st.integers(0, join_p - 1)) == 0))
+    if force_join or (want_join and draw(st.integers(0, 2)) != 1):
+        A, aw = st_join_table(draw, max_rows, max_width, pool, hdr)      # key-like values in the first columns: matches (and multiple matches) are common
     else:
         A, aw = st_table(draw, max_rows=max_rows, max_width=max_width, pool=pool, first_full=hdr)
     a_names = st_names(draw, aw) if (hdr and aw > 0) else None
     join = None
     B, b_names, bw = None, None, 0
     a_min = min([len(r) for r in A] + [aw])
-    if (force_join or (join_p and draw(st.integers(0, join_p - 1)) == 0)):
+    if want_join:
         B, bw = st_join_table(draw, 7, 3, pool[:8], a_names is not None)
         b_min = min([len(r) for r in B] + [bw])
         b_names = st_names(draw, bw) if a_names is not None else None
